@@ -364,3 +364,7 @@ func cloneRegionPerPred(fn *ssa.Function, J *ssa.BasicBlock) bool {
 	rebuildReferrers(fn)
 	return true
 }
+
+// BlockReaches reports whether control can flow from the end of from to the
+// start of to.
+func BlockReaches(from, to *ssa.BasicBlock) bool { return blockReaches(from, to) }
